@@ -1596,3 +1596,86 @@ func VH04g_many_peers() {
 	verif.Reach("many-peers-checked")
 	sock.Close()
 }
+
+// VH04h_write_fault: the connection that is handed a request cannot be written
+// to (the write fails at once, or after having stalled), although its read side
+// stays healthy -- nothing else tells the library that the connection is bad.
+// The library gives the connection up (closes it; it is never offered anything
+// again) and the request is re-sent at once to the other peer, unchanged; its
+// reply completes the exchange; a second context that was waiting to send is
+// not handed to the dead connection either; later requests go to the healthy
+// peer. With a single peer the request waits (its Send blocks, or its deadline
+// runs out) instead of being reported as sent.
+func VH04h_write_fault() {
+	lab := "C04/write-fault"
+	sock := vp.New("req")
+	verif.Assert(sock.SetOption(mangos.OptionRetryTime, time.Minute) == nil, lab+"/set-retry")
+	side := vt.Listen(sock, "a")
+	vt.ChooseErrors()
+	bad := side.Peer("bad")
+	stalls := verif.Choice("stalls-first", 2) == 1
+	if stalls {
+		bad.SendMode = vt.SendBlock
+	} else {
+		bad.SendMode = vt.SendFail
+	}
+	twoPeers := verif.Choice("second-peer", 2) == 1
+	body := []byte{'Q', verif.Byte("payload")}
+	var serr error
+	sg := verif.Go("send", func() { serr = sock.Send(body) })
+	verif.Quiesce()
+	var c2 mangos.Context
+	var s2 *verif.G
+	var serr2 error
+	if stalls {
+		// a second context is waiting for a connection while the write is stuck
+		c2, _ = sock.OpenContext()
+		s2 = verif.Go("send-2", func() { serr2 = c2.Send([]byte{'W', 0}) })
+		verif.Quiesce()
+	}
+	var good *vt.Pipe
+	if twoPeers {
+		good = side.Peer("good")
+	}
+	if stalls {
+		// the stalled write now fails; the read side of the connection stays as it is
+		bad.SendMode = vt.SendFail
+		bad.FailBlocked()
+		verif.Quiesce()
+	}
+	verif.Assert(bad.Closed, lab+"/connection-whose-write-failed-not-given-up")
+	n := bad.SendCalls
+	if twoPeers {
+		verif.Assert(sg.Done() && serr == nil, lab+"/send")
+		tx := transmissions([]*vt.Pipe{good}, 'Q')
+		verif.Assert(len(tx) == 1, lab+"/request-not-re-sent-at-once-to-the-healthy-peer")
+		if len(tx) != 1 {
+			return
+		}
+		verif.Assert(verif.BytesEq(tx[0].b, body), lab+"/retransmission-differs-from-the-request")
+		h := tx[0].h
+		good.Deliver([]byte{h[0], h[1], h[2], h[3], 'R'})
+		verif.Quiesce()
+		b, err := sock.Recv()
+		verif.Assert(err == nil && len(b) == 1 && b[0] == 'R', lab+"/reply-not-delivered")
+		if s2 != nil {
+			verif.Assert(s2.Done() && serr2 == nil, lab+"/waiting-context-not-served-by-the-healthy-peer")
+			verif.Assert(len(transmissions([]*vt.Pipe{good}, 'W')) == 1, lab+"/waiting-request-not-transmitted-to-the-healthy-peer")
+		}
+		verif.Assert(sock.Send([]byte{'Z', 1}) == nil, lab+"/later-send")
+		verif.Quiesce()
+		verif.Assert(len(transmissions([]*vt.Pipe{good}, 'Z')) == 1, lab+"/later-request-not-sent-to-the-healthy-peer")
+		verif.Reach("failed-over")
+	} else {
+		// nobody else to send to: nothing may pretend the waiting requests went out
+		if s2 != nil {
+			verif.Assert(!s2.Done(), lab+"/waiting-send-reported-done-although-its-only-connection-is-dead")
+		}
+		late := side.Peer("late")
+		verif.Quiesce()
+		verif.Assert(len(transmissions([]*vt.Pipe{late}, 'Q')) == 1, lab+"/request-not-re-sent-to-the-peer-that-connected-later")
+		verif.Reach("waited-for-a-peer")
+	}
+	verif.Assert(bad.SendCalls == n, lab+"/dead-connection-offered-traffic-again")
+	sock.Close()
+}
